@@ -23,6 +23,12 @@ CASES = {
  'fp-sqrt-rename': (lambda: edit(REPO + '/src/fields/fp.rs', 'let a1a = self.pow(*FQ_MINUS1_DIV4);', 'let legendre_like = self.pow(*FQ_MINUS1_DIV4);') or edit(REPO + '/src/fields/fp.rs', 'a1a', 'legendre_like', 99), ['C14']),
  'gt-pow-let': (lambda: edit(REPO + '/src/lib.rs', '        Gt(self.0.pow(exp.0))', '        let e = exp.0;\n        Gt(self.0.pow(e))'), ['C11']),
  'pairing-match-swap-arms': (lambda: edit(REPO + '/src/pairings.rs', '(None, _) | (_, None) => Fq12::one(),', '(_, None) | (None, _) => Fq12::one(),'), ['C02']),
+ 'groups-helper-extract': (lambda: edit(REPO + '/src/groups.rs', '        let eight_c = c.double().double().double();', '        let eight_c = Self::eight_times(c);') or edit(REPO + '/src/groups.rs', '    pub fn x(&self) -> &P::Base {\n        &self.x\n    }', '    fn eight_times(v: P::Base) -> P::Base {\n        v.double().double().double()\n    }\n\n    pub fn x(&self) -> &P::Base {\n        &self.x\n    }'), ['C04','C05']),
+ 'groups-double-let-y3': (lambda: edit(REPO + '/src/groups.rs', '        G {\n            x: x3,\n            y: e * (d - x3) - eight_c,\n            z: y1z1.double(),\n        }', '        let y3 = e * (d - x3) - eight_c;\n        let z3 = y1z1.double();\n        G { x: x3, y: y3, z: z3 }'), ['C04']),
+ 'fq2-mul-temps': (lambda: edit(REPO + '/src/fields/fq2.rs', '        let a = self;\n        Fq2 {\n            c0: Fq::sum_of_products(&[a.c0, -a.c1.double()], &[b.c0, b.c1]),\n            c1: Fq::sum_of_products(&[a.c0, a.c1], &[b.c1, b.c0]),\n        }', '        let a = self;\n        let m2a1 = -a.c1.double();\n        let c0 = Fq::sum_of_products(&[a.c0, m2a1], &[b.c0, b.c1]);\n        let c1 = Fq::sum_of_products(&[a.c0, a.c1], &[b.c1, b.c0]);\n        Fq2 { c0, c1 }'), ['C12','C17']),
+ 'lib-g1-compressed-parity': (lambda: edit(REPO + '/src/lib.rs', '        let is_even = sign & 1 == 0;\n\n        if is_even != y.is_even() {\n            y = -y;\n        }\n\n        AffineG1::new(x, y)', '        let want_even = sign & 1 == 0;\n        if y.is_even() != want_even {\n            y = -y;\n        }\n        AffineG1::new(x, y)'), ['C08','C10']),
+ 'lib-g1-compressed-sign-test': (lambda: edit(REPO + '/src/lib.rs', '        let sign = bytes[0];\n        if sign != 2 && sign != 3 {\n            return Err(CurveError::InvalidEncoding);\n        }\n        // coordinates must be canonical', '        let sign = bytes[0];\n        if !(sign == 2 || sign == 3) {\n            return Err(CurveError::InvalidEncoding);\n        }\n        // coordinates must be canonical'), ['C08']),
+ 'groups-mul-loop-var': (lambda: edit(REPO + '/src/groups.rs', '        for i in U256::from(other).bits_without_leading_zeros() {\n            res = res.double();\n            if i {\n                res += self;\n            }\n        }', '        let k = U256::from(other);\n        for bit in k.bits_without_leading_zeros() {\n            res = res.double();\n            if bit {\n                res = res + self;\n            }\n        }'), ['C05']),
  'groups-double-reorder': (lambda: edit(REPO + '/src/groups.rs', '        let a = self.x.squared();\n        let b = self.y.squared();', '        let b = self.y.squared();\n        let a = self.x.squared();'), ['C04','C05']),
 }
 which = sys.argv[1:] or list(CASES)
